@@ -75,3 +75,11 @@ claim("C19",
   "Kani step contracts on the loop bodies of select_animation and chain_animations (same extraction)",
   "select: same key => nothing restarts; new key => the animator gets a clone of that key's timeline started from the component's current values (evaluating it at time 0 reproduces them: no jump), position 0, state None; key without timeline => timeline None, component untouched. chain: the key moves to next[key] iff the event is Ended for this entity and the chain has an entry for the active key. The 'other animator on the entity' clause is a recorded known finding of the event type (not expressible with one animator per entity).",
   "A6. " + KNOTE, "DESIGN.md section 5 C19")
+claim("C15",
+  "Kani equivalence harnesses on rustc's real expansion of timeline! vs the builder chain, for a family of sentences (bounded over programs)",
+  "For each sentence of a family that covers every production of the macro grammar (s/ms, for, after, Nx, infinite, reverse, easing path, from/to/N%, literal forms, argument permutations, bracketed lists) the macro-built timeline is structurally identical to the one the documented builder chain builds: same boundary times, same time scale (cycle, delay, repeat, reverse), and for every field the same captured keyframes (position, value-or-absent, easing), default value and default easing. Bounded over sentences; rejection of ill-formed sentences is not covered.",
+  "Partial coverage of the property by design: DESIGN.md section 5 explains why the macro itself (syn/quote inside rustc) is out of reach; what is verified is its output. " + KNOTE, "DESIGN.md section 5 C15, section 8.10")
+claim("C16",
+  "Kani equivalence harnesses on rustc's real expansion of animator! vs StateAnimatorBuilder, for a family of blocks (bounded over programs)",
+  "For each block of a family covering every production (default(state,{..}) / default(state, expr) / default(state) / none, `default` keyframe bodies, `A | B =>` arms, merged arms, unmentioned states) the macro-built animator equals the builder-built one: same initial state and values, same per-state merged timelines (captured structurally), same blend of the initial state. Behaviour over histories is then C04/C05's (they hold for any animator the builder produces).",
+  "bounded over sentences; as C15. " + KNOTE, "DESIGN.md section 5 C16, section 8.10")
